@@ -54,17 +54,34 @@ def _class_funcs(ci):
     return out
 
 
-def _method_uses(idx, cg, tail, owner, foreign_prefix="allmydata.mutable"):
-    """Calls and bare attribute references ``X.tail`` that can denote `owner`'s method."""
-    cand = []
-    for cs in cg.calls_named(tail):
-        if isinstance(cs.call.func, ast.Attribute):
-            cand.append((cs.fn, cs.call, cs.call.func.value, "call"))
-    for (fn, nd) in cg.refs_named(tail):
-        if isinstance(nd, ast.Attribute):
-            cand.append((fn, nd, nd.value, "ref"))
+def _sweep(idx, name):
+    """Every call ``X.name(..)`` and every other load of an attribute ``X.name`` in the package, *including
+    lambda bodies* (the engine's call-graph sweeps do not enter lambdas): (fn, node, receiver expr, 'call'|'ref')."""
+    cache = idx.__dict__.setdefault("_lambda_sweep_cache", {})
     out = []
-    for (fn, node, recv, kind) in cand:
+    for fn in idx.funcs.values():
+        if name not in fn.module.source:
+            continue
+        ent = cache.get(fn.qual)
+        if ent is None:
+            nodes = [n for n in func_own_nodes(fn, into_lambda=True) if isinstance(n, (ast.Call, ast.Attribute))]
+            callfuncs = {id(n.func) for n in nodes if isinstance(n, ast.Call)}
+            ent = cache[fn.qual] = (nodes, callfuncs)
+        nodes, callfuncs = ent
+        for n in nodes:
+            if isinstance(n, ast.Call):
+                if isinstance(n.func, ast.Attribute) and n.func.attr == name:
+                    out.append((fn, n, n.func.value, "call"))
+            elif n.attr == name and isinstance(n.ctx, ast.Load) and id(n) not in callfuncs:
+                out.append((fn, n, n.value, "ref"))
+    return out
+
+
+def _method_uses(idx, cg, tail, owner, foreign_prefix="allmydata.mutable"):
+    """Calls and bare attribute references ``X.tail`` that can denote `owner`'s method: receiver ``self``
+    inside the owner class (or a subclass), or any non-self receiver inside `foreign_prefix`."""
+    out = []
+    for (fn, node, recv, kind) in _sweep(idx, tail):
         if isinstance(recv, ast.Name) and recv.id == "self":
             if fn.cls is not None and owner in fn.cls.mro():
                 out.append((fn, node, kind))
@@ -147,7 +164,10 @@ def run(ctx: Context):
     with ctx.rule("C12.1", "R1", "mutable/layout.py: every slot_testv_and_readv_and_writev call sends self._testvs for "
                   "its own share number, and self._testvs is non-empty on every path to the call", expected=2) as r:
         lay = idx.module("allmydata.mutable.layout")
-        sites = [cs for cs in cg.calls_named(REMOTE) if cs.fn.module is lay]
+        sites = [CallSite(f, nd) for (f, nd, _recv, kind) in _sweep(idx, REMOTE) if kind == "call" and f.module is lay]
+        for (f, nd, _recv, kind) in _sweep(idx, REMOTE):
+            if kind == "ref" and f.module is lay:
+                r.violation(f, f.loc(nd), "%s passes %s around as a value: its test vectors cannot be checked" % (short(f), REMOTE))
         for cs in sites:
             fn = cs.fn
             r.site(fn, cs.call)
@@ -156,7 +176,9 @@ def run(ctx: Context):
             tgt = lambda n, _c=cs.call: any(c is _c for c in node_calls(n))
             tnodes = cfg.find(tgt)
             if not tnodes:
-                raise AnalysisError("remote call not found in the CFG of %s" % short(fn))
+                r.violation(fn, cs.loc, "%s issues the remote write from inside a lambda: the state of self._testvs when it "
+                            "runs cannot be established" % short(fn))
+                continue
             tw = arg(cs.call, 2, "tw_vectors")
             r.require(tw is not None, fn, cs.loc, "no test-and-write vector argument")
             # the entries of the tw_vectors dict
